@@ -501,3 +501,78 @@ func checkByteWidenedToRune(p *Prog, r *Result, rule string) int {
 	}
 	return n
 }
+
+// R17i: what the pattern's author put between the brackets is written into the regular expression's bracket in order,
+// and may end in a dash, which is then a literal (`[a-]`). Anything the translation itself appends at the end — a
+// slash to keep a negated set from matching a path separator, say — lands behind that dash and turns it into a range
+// (`[^a-/]`). So in the clause that closes a bracket expression the bracket's builder receives the closing `]` and
+// nothing else.
+func checkBracketCloserAddsNothing(p *Prog, r *Result, rule string) int {
+	pkg := p.Pkg("pattern")
+	info := pkg.TypesInfo
+	fd := p.FuncDecl("pattern", "regexpNext")
+	if fd == nil {
+		r.Undecided(rule, "pattern.regexpNext", token.NoPos, "anchor not found")
+		return 0
+	}
+	n := 0
+	ast.Inspect(fd.Body, func(m ast.Node) bool {
+		cc, ok := m.(*ast.CaseClause)
+		if !ok || len(cc.List) != 1 {
+			return true
+		}
+		if tv, ok := info.Types[cc.List[0]]; !ok || tv.Value == nil || tv.Value.ExactString() != "93" { // ']'
+			return true
+		}
+		// the clause must be the one that finishes the bracket: it writes the builder's contents somewhere
+		finishes := false
+		var builder types.Object
+		for _, st := range cc.Body {
+			ast.Inspect(st, func(q ast.Node) bool {
+				c, ok := q.(*ast.CallExpr)
+				if !ok {
+					return true
+				}
+				if se, ok := ast.Unparen(c.Fun).(*ast.SelectorExpr); ok && se.Sel.Name == "String" {
+					if id, ok := ast.Unparen(se.X).(*ast.Ident); ok && typeName(info.TypeOf(id)) == "Builder" {
+						finishes = true
+						builder = info.ObjectOf(id)
+					}
+				}
+				return true
+			})
+		}
+		if !finishes {
+			return true
+		}
+		n++
+		key := funcKey("pattern", fd) + "#the clause that closes a bracket appends only the closing bracket"
+		bad := ""
+		for _, st := range cc.Body {
+			ast.Inspect(st, func(q ast.Node) bool {
+				c, ok := q.(*ast.CallExpr)
+				if !ok || len(c.Args) != 1 {
+					return true
+				}
+				se, ok := ast.Unparen(c.Fun).(*ast.SelectorExpr)
+				if !ok || !strings.HasPrefix(se.Sel.Name, "Write") {
+					return true
+				}
+				id, ok := ast.Unparen(se.X).(*ast.Ident)
+				if !ok || info.ObjectOf(id) != builder {
+					return true
+				}
+				tv, ok := info.Types[c.Args[0]]
+				isCloser := ok && tv.Value != nil && (tv.Value.ExactString() == "93" || tv.Value.ExactString() == `"]"`)
+				if !isCloser && bad == "" {
+					bad = exprString(c)
+				}
+				return true
+			})
+		}
+		r.Check(bad == "", rule, key, cc.Pos(), "the only write to the bracket's builder there is the closing bracket",
+			fmt.Sprintf("the clause that closes a bracket expression also writes %s into it: whatever is appended after the author's last member lands behind a trailing dash, which is a literal in the pattern (`[!a-]`) and becomes a range in the regular expression (`[^a-/]`)", bad))
+		return true
+	})
+	return n
+}
